@@ -410,6 +410,13 @@ func init() {
 			for i := 0; i < rets; i++ {
 				cs = append(cs, CaseSpec{Kind: "live", P: map[string]int64{"limit": int64(1 + i%5), "ret": 1}, S: map[string]string{"mode": "babble-return"}})
 			}
+			calls := 6
+			if tier == "thorough" {
+				calls = 60
+			}
+			for i := 0; i < calls; i++ {
+				cs = append(cs, CaseSpec{Kind: "live", P: map[string]int64{"call": 1, "slow_ms": int64(2 + i%8), "tcp_ms": int64(5 * (i % 4)), "warm": int64(30 + 10*(i%5))}, S: map[string]string{"mode": "suspend-call"}})
+			}
 			for i := 0; i < 2*raceSoaks(tier); i++ {
 				mode := []string{"lonely-self", "absent"}[i%2]
 				cs = append(cs, CaseSpec{Kind: "live", P: map[string]int64{"n": int64(3 + (i/2)%4), "limit": int64(4 + (i*5)%8), "pendingjoin": int64((i / 2) % 2)}, S: map[string]string{"mode": mode, "race": "1"}})
